@@ -37,7 +37,7 @@ type Profile struct {
 
 	// client op weights
 	WPropose, WBatch, WConf, WRead, WTransfer, WCampaign, WForget, WUnreach, WCompact, WCheckpoint, WSnapFault float64
-	ClientRate                                                                                             float64 // ops per tick
+	ClientRate                                                                                                 float64 // ops per tick
 	// fault weights
 	WCrash, WPartition, WHealF, WClockStall, WClockJump, WSlowNode, WStallThread float64
 	FaultRate                                                                    float64 // faults per tick
@@ -151,21 +151,21 @@ type Gen struct {
 	gn    map[uint64]*genNode
 	maxET int
 
-	nextTag     int
-	nextCtx     int
-	proposals   int
-	confChanges int
-	removed     map[uint64]bool
-	maxActions  int
-	faultFree   bool
-	onlyFault   string
+	nextTag            int
+	nextCtx            int
+	proposals          int
+	confChanges        int
+	removed            map[uint64]bool
+	maxActions         int
+	faultFree          bool
+	onlyFault          string
 	dropP, dupP, lateP float64
-	fastNet     bool
-	ckptRestart float64
-	clientRate  float64
-	faultRate   float64
-	lateType    pb.MessageType
-	lateTypeP   float64
+	fastNet            bool
+	ckptRestart        float64
+	clientRate         float64
+	faultRate          float64
+	lateType           pb.MessageType
+	lateTypeP          float64
 }
 
 func pick(rng *rand.Rand, ws []float64) int {
